@@ -115,6 +115,10 @@ def __sync__(
     global INSTANCE_CONFIG
 
     try:
+        # Unpack everything before touching the globals, so that a failure
+        # in any part leaves the worker state exactly as it was: the server
+        # does not record a failed sync, and must not be left believing in
+        # state this worker has partially replaced.
         db = DBS.get(dbname)
         if db is None:
             assert user_schema is not None
@@ -123,13 +127,12 @@ def __sync__(
             user_schema_unpacked = pickle.loads(user_schema)
             reflection_cache_unpacked = pickle.loads(reflection_cache)
             database_config_unpacked = pickle.loads(database_config)
-            db = state.DatabaseState(
+            new_db = state.DatabaseState(
                 dbname,
                 user_schema_unpacked,
                 reflection_cache_unpacked,
                 database_config_unpacked,
             )
-            DBS = DBS.set(dbname, db)
         else:
             updates = {}
 
@@ -140,19 +143,25 @@ def __sync__(
             if database_config is not None:
                 updates['database_config'] = pickle.loads(database_config)
 
-            if updates:
-                db = db._replace(**updates)
-                DBS = DBS.set(dbname, db)
+            new_db = db._replace(**updates) if updates else db
 
         if global_schema is not None:
-            GLOBAL_SCHEMA = pickle.loads(global_schema)
+            global_schema_unpacked = pickle.loads(global_schema)
 
         if system_config is not None:
-            INSTANCE_CONFIG = pickle.loads(system_config)
+            system_config_unpacked = pickle.loads(system_config)
 
     except Exception as ex:
         raise state.FailedStateSync(
             f'failed to sync worker state: {type(ex).__name__}({ex})') from ex
+
+    if new_db is not db:
+        db = new_db
+        DBS = DBS.set(dbname, db)
+    if global_schema is not None:
+        GLOBAL_SCHEMA = global_schema_unpacked
+    if system_config is not None:
+        INSTANCE_CONFIG = system_config_unpacked
 
     return db
 
